@@ -483,3 +483,51 @@ func c06FairKey(n int) {
 
 func Harness_C06_fair_key_2rows() { c06FairKey(2) }
 func Harness_C06_fair_key_3rows() { c06FairKey(3) }
+
+// ---- selectRandom against its own draws ----
+// rand.Float64 is replaced by a model that hands out draws chosen by the harness (k/8, k = 0..7), so
+// the oracle knows which rows' draws succeeded.
+var c05Draws []float64
+var c05DrawPos int
+
+func C05Float64(r *rand.Rand) float64 {
+	d := c05Draws[c05DrawPos]
+	c05DrawPos++
+	return d
+}
+
+// 0..3 rows, factor from {0.5, 1, 1.5, 2, 3, 8}, one draw per row in row order: the rows moved to the
+// front (the ones sampler.sample keeps with the factor) are exactly the rows whose own draw succeeded
+// (draw x factor < 1), in their original order, and the returned length is their number - so each row's
+// keep probability is 1/factor whatever its position or weight.
+func Harness_C05_selectRandom_keeps_the_drawn_rows() {
+	r := rand.New()
+	n := v.Choice(4)
+	sf := []float64{0.5, 1, 1.5, 2, 3, 8}[v.Choice(6)]
+	items := make([]SamplingMultiItemPair, n)
+	its := make([]*MultiItem, n)
+	c05Draws, c05DrawPos = nil, 0
+	for i := range items {
+		its[i] = &MultiItem{}
+		items[i].Item = its[i]
+		c05Draws = append(c05Draws, v.NondetFloatInt(0, 7)/8)
+	}
+	got := selectRandom(items, sf, r)
+	if sf <= 1 {
+		v.Assert("C05.select.keeps_all_for_sf_le_1", got == n)
+		v.Reach("C05.select.drawn.end")
+		return
+	}
+	v.Assert("C05.select.one_draw_per_row", c05DrawPos == n)
+	var want []*MultiItem
+	for i := 0; i < n; i++ {
+		if c05Draws[i]*sf < 1 {
+			want = append(want, its[i])
+		}
+	}
+	v.Assert("C05.select.count_is_number_of_successful_draws", got == len(want))
+	for k := 0; k < len(want) && k < got; k++ {
+		v.Assert("C05.select.front_rows_are_the_rows_whose_draw_succeeded", items[k].Item == want[k])
+	}
+	v.Reach("C05.select.drawn.end")
+}
